@@ -40,6 +40,7 @@ import (
 	"strings"
 	"sync"
 	"sync/atomic"
+	"syscall"
 	"time"
 
 	comm "github.com/IBM/TSS/net"
@@ -785,9 +786,10 @@ type nfScenario struct {
 }
 
 type nfJob struct {
-	Material  string       `json:"material"`
-	Scenarios []nfScenario `json:"scenarios"`
-	Workers   int          `json:"workers"`
+	Vectors   map[string][]int `json:"vectors"` // payload length -> the four length bytes of the header according to spec/Net.tla
+	Material  string           `json:"material"`
+	Scenarios []nfScenario     `json:"scenarios"`
+	Workers   int              `json:"workers"`
 }
 
 type nfNode struct {
@@ -796,7 +798,8 @@ type nfNode struct {
 	addr    string
 	stop    func()
 	parties comm.SocketRemoteParties
-	recv    bool // deliveries to this node are observable (real listener now or later, or recording raw server)
+	release func() // frees a reserved address
+	recv    bool   // deliveries to this node are observable (real listener now or later, or recording raw server)
 }
 
 type nfRun struct {
@@ -961,13 +964,24 @@ func (r *nfRun) rawServer(n *nfNode, rec bool) {
 	}()
 }
 
+// reserve an address at which nothing listens: the socket is bound (so no other listener of this machine can get the port
+// while the scenario runs, and connection attempts are refused) but never listens
 func (r *nfRun) reserve(n *nfNode) {
-	l, err := net.Listen("tcp", "127.0.0.1:0")
+	fd, err := syscall.Socket(syscall.AF_INET, syscall.SOCK_STREAM, 0)
 	if err != nil {
-		nxFatal("listen: %v", err)
+		nxFatal("socket: %v", err)
 	}
-	n.addr = l.Addr().String()
-	l.Close()
+	if err := syscall.Bind(fd, &syscall.SockaddrInet4{Port: 0, Addr: [4]byte{127, 0, 0, 1}}); err != nil {
+		nxFatal("bind: %v", err)
+	}
+	sa, err := syscall.Getsockname(fd)
+	if err != nil {
+		nxFatal("getsockname: %v", err)
+	}
+	n.addr = fmt.Sprintf("127.0.0.1:%d", sa.(*syscall.SockaddrInet4).Port)
+	var once sync.Once
+	n.release = func() { once.Do(func() { syscall.Close(fd) }) }
+	r.closers = append(r.closers, n.release)
 }
 
 func (r *nfRun) sender(pi int, p nfProg, wg *sync.WaitGroup) {
@@ -1125,11 +1139,13 @@ func nfExec(mat *nxMaterial, out *nxOut, s nfScenario) {
 	r := &nfRun{s: s, mat: mat, out: out, nodes: map[int]*nfNode{}}
 	r.ev(obj{"e": "reset", "fault": s.Fault, "victim": s.Victim, "n": s.N, "dom": s.Dom})
 	for i := 1; i <= s.N; i++ {
-		id, ok := mat.Idents[fmt.Sprintf("N%d", i)]
-		if !ok {
-			nxFatal("no identity for node %d", i)
+		// fresh identities per scenario: a connection that strays into a listener of another scenario (a sender that keeps
+		// re-dialling an address whose port has been re-used) can never be authenticated there
+		k, err := ecdsa.GenerateKey(elliptic.P256(), rand.Reader)
+		if err != nil {
+			nxFatal("key: %v", err)
 		}
-		r.nodes[i] = &nfNode{id: i, ident: id, recv: true}
+		r.nodes[i] = &nfNode{id: i, ident: &nxIdent{Bytes: nxSelfSigned(&k.PublicKey, k), signer: k}, recv: true}
 	}
 	for i := 1; i <= s.N; i++ {
 		n := r.nodes[i]
@@ -1170,6 +1186,7 @@ func nfExec(mat *nxMaterial, out *nxOut, s nfScenario) {
 			defer wg.Done()
 			time.Sleep(time.Duration(s.LateMs) * time.Millisecond)
 			n := r.nodes[s.Victim]
+			n.release()
 			if err := r.serve(n, n.addr); err != nil {
 				inconclusive = "the late peer could not re-use its port: " + err.Error()
 				return
@@ -1238,7 +1255,21 @@ func nxRunFR() {
 	var job nfJob
 	readJob(&job)
 	mat := nxLoadMaterial(job.Material)
-	out.line(obj{"e": "ready"})
+	// the driver's own frame codec must agree with the specification's byte vectors
+	for ns, want := range job.Vectors {
+		var n uint32
+		fmt.Sscan(ns, &n)
+		hdr := make([]byte, 5)
+		binary.LittleEndian.PutUint32(hdr[1:], n)
+		same := len(want) == 4
+		for i := 0; same && i < 4; i++ {
+			same = int(hdr[1+i]) == want[i]
+		}
+		if !same {
+			nxFatal("frame codec of the driver disagrees with spec/Net.tla for length %s: %v vs %v", ns, hdr[1:], want)
+		}
+	}
+	out.line(obj{"e": "ready", "vectors": len(job.Vectors)})
 	parallel(len(job.Scenarios), job.Workers, func(i int) {
 		s := job.Scenarios[i]
 		out.line(obj{"e": "start", "t": s.ID})
